@@ -665,7 +665,10 @@ top:
 			lexer.AppendToken(lexer.Token(TokenFreshAssign, ":="))
 			return nil
 		} else {
-			if sliceBoundLiteralBeforeColon(lexer.buffer.String()) {
+			if sliceBoundLiteralBeforeColon(lexer.buffer.String()) ||
+				DotSymbolRegex.MatchString(lexer.buffer.String()) {
+				// a dotted path has no colon-tail form: DecodeAtom would drop
+				// the ':' and a[h.k:2] would lose its slice colon.
 				err := lexer.dumpBuffer()
 				if err != nil {
 					return err
